@@ -52,6 +52,19 @@ def gen_cases(rng, tier):
         if i % 2 == 0:
             cases.append(("c18", [2] + t + rt(rng)))
         cases.append(("c18", [3] + t + [rv(rng), rv(rng)]))
+    # tiny skews (a rotation of a few thousandths of a degree, a shear of 1e-4): still a skew, for every entry point
+    for i in range(300 if tier == "quick" else 4000):
+        sk = lambda: rng.choice([0.0, 1e-4, -2e-4, 5e-5, 2.4e-4, 1e-6, -1e-5])
+        kx, ky = sk(), sk()
+        if kx == 0.0 and ky == 0.0:
+            kx = 1e-4
+        t = [f2b(rng.choice([1.0, 1.0, 2.0, 0.5, 3.7])), f2b(kx), f2b(ky), f2b(rng.choice([1.0, 1.0, 2.0, 0.5, -1.0])),
+             f2b(rng.choice([0.0, rng.uniform(-50, 50)])), f2b(rng.choice([0.0, rng.uniform(-50, 50)]))]
+        cases.append(("c18", [1] + t))
+        cases.append(("c18", [4] + t))
+        cases.append(("c18", [2] + t + rt(rng)))
+        cases.append(("c18", [2] + rt(rng) + t))
+        cases.append(("c18", [3] + t + [f2b(rng.uniform(-4000, 4000)), f2b(rng.uniform(-4000, 4000))]))
     # near-singular: rows almost parallel
     for i in range(300):
         a, b = rng.uniform(-2, 2), rng.uniform(-2, 2)
@@ -123,7 +136,7 @@ def gen_cases(rng, tier):
         tx, ty = float(8 - int(min(mx))), float(8 - int(min(my)))
         width = rng.choice([0.0, 0.0, 0.4, 0.8, 1.0, 1.5, 1.9, 3.0, 6.0]) / sc
         aa = 1 if (rng.random() < 0.7 or width * sc < 1.0) else 0
-        shader = rng.randrange(3) + 3 * rng.randrange(3)
+        shader = rng.randrange(4) + 4 * rng.randrange(3)
         t = [f2b(sx), f2b(kx), f2b(ky), f2b(sy), f2b(tx), f2b(ty)]
         cases.append(("c18", [9] + t + [f2b(width), aa, shader, f2b(sc)] + [f2b(v) for p in pts for v in p]))
     return cases
@@ -189,6 +202,14 @@ def oracle(suite, args, out):
     if k == 3:
         if o == [-7]:
             return "map_points disagrees with map_point"
+        t = args[1:7]
+        if len(o) == 2 and all(is_finite_bits(x) for x in list(t) + list(args[7:9]) + o):
+            sx, kx, ky, sy, tx, ty = [F(x) for x in t]
+            x, y = F(args[7]), F(args[8])
+            ex, ey = x * sx + y * kx + tx, x * ky + y * sy + ty
+            mag = abs(x * sx) + abs(y * kx) + abs(tx) + abs(x * ky) + abs(y * sy) + abs(ty)
+            if mag < Fr(10) ** 30 and (abs(F(o[0]) - ex) > mag * Fr(1, 10**5) + Fr(1, 10**30) or abs(F(o[1]) - ey) > mag * Fr(1, 10**5) + Fr(1, 10**30)):
+                return "map_point maps (%g, %g) to (%g, %g), the matrix gives (%g, %g)" % (float(x), float(y), b2f(o[0]), b2f(o[1]), float(ex), float(ey))
         return None
     if k == 7:
         # strokes thinner than a pixel in device space are drawn as coverage-modulated hairlines when anti-aliasing
